@@ -156,10 +156,15 @@ def body(task, ins, params):
              'key': _safe_key(task)}
     RUNSEQ[0] += 1
     seq = RUNSEQ[0] * 100000 + (__import__('os').getpid() % 100000)
-    for i, msg in enumerate(spec.get('logs', ['m0', 'm1'])):
+    msgs = spec.get('logs', ['m0', 'm1'])
+    late = None
+    for i, msg in enumerate(msgs):
         task.logger.info(f'USER {spec["slug"]} run#{seq} {msg}')
         if task._config is not None:
-            task.save_to_run_info({'rec': i, 'run': seq})
+            if kind == 'generated' and i == len(msgs) - 1:
+                late = {'rec': i, 'run': seq}   # a generator task adds its last record from the generator body
+            else:
+                task.save_to_run_info({'rec': i, 'run': seq})
     entry['seq'] = seq
     try:
         entry['param_reprs'] = {p.name: p.value_repr() for p in task.params.values()}
@@ -175,6 +180,15 @@ def body(task, ins, params):
     bad = CTRL.get('bad') or {}
     mode = next((m for pl, m in bad.items() if _matches(json.loads(pl), task, tree)), None)
     RUNLOG.append(entry)
+    if mode is not None:
+        entry['raised'] = True   # the request fails (while the result is checked / stored): not a successful run
+    if late is not None and mode is None:
+        def _late():
+            task.save_to_run_info(late)
+            yield from [tree, {'n': 1}, {'n': 2}]
+        return _late()
+    if late is not None:
+        task.save_to_run_info(late)
     if mode == 'mistyped':
         return Unserializable() if kind != 'mem' else 5
     if mode == 'unserializable':
